@@ -112,6 +112,8 @@ def gen_plan(seed, tier="quick"):
     if h.random() < 0.15:
         # the application runs it again later with the very same arguments object
         plan["second_run"] = True
+    if plan["available"] is not None and h.random() < 0.3:
+        plan["avail_form"] = h.choice(["tuple", "set", "iter", "gen", "filter"])
     if h.random() < 0.15:
         # a second DALI line is being commissioned by the same process at the same time
         plan["companion"] = {"units": [[h.getrandbits(24), h.getrandbits(24)][:h.randrange(1, 3)] + [0x100000 + 7919 * i]
@@ -145,6 +147,14 @@ def run_plan(plan):
     readdress, dry = plan["readdress"], plan["dry_run"]
     avail = plan["available"]
     avail_obj = None if avail is None else list(avail)        # the caller's own list object
+    form = plan.get("avail_form")
+    form_used = None
+    if avail is not None and form and not plan.get("second_run"):
+        # "any iterable will do": a tuple, a set, a one-shot iterator, a generator, a filter object
+        avail_obj = {"tuple": lambda: tuple(avail), "set": lambda: set(avail), "iter": lambda: iter(list(avail)),
+                     "gen": lambda: (a for a in list(avail)), "filter": lambda: filter(lambda a: True, list(avail)),
+                     "range": lambda: avail_obj}[form]()
+        form_used = form
     gen = Commissioning(available_addresses=avail_obj, readdress=readdress, dry_run=dry)
     transport = plan.get("transport")
     if transport:
@@ -171,6 +181,8 @@ def run_plan(plan):
             comp.finish()
     vs = []
     probes = {}
+    if form_used:
+        probes["permitted-set-as-" + form_used] = 1
 
     def V(clause, detail, site=None):
         vs.append(Violation(PROP, clause, detail, driver="commissioning", site=site))
